@@ -11,9 +11,9 @@ VERUS_UNITS = {
     'U-MP': dict(module='contracts.verus.msgpack_size', min_verified=37, timeout=600,
                  native_search=dict(src='src/msgpack.rs', file='msgpack_search.rs'),
                  props=['C18', 'C04', 'C02', 'C03', 'C06', 'C01']),
-    'U-CHK-V': dict(module='contracts.verus.yaml_chunker', min_verified=19, timeout=600,
+    'U-CHK-V': dict(module='contracts.verus.yaml_chunker', min_verified=22, timeout=600,
                     native_search=dict(src='src/yaml/chunker.rs', file='chunker_search.rs'),
-                    props=['C03', 'C05', 'C04', 'C02', 'C12']),
+                    props=['C03', 'C05', 'C04', 'C02', 'C12', 'C07']),
     'U-ENC-V': dict(module='contracts.verus.yaml_encoding', min_verified=15, timeout=600,
                     native_search=dict(src='src/yaml/encoding.rs', file='encoder_search.rs'),
                     props=['C07', 'C02', 'C04', 'C05', 'C12', 'C01']),
@@ -390,7 +390,7 @@ PROPERTIES = {
         explanation='Encoding::detect == YAML 1.2.2 section 5.2 table for every prefix (complete); Utf16Decoder::next / Utf32Decoder::next step contracts from arbitrary state over every '
                     'code unit value (complete): Ok(c) iff well-formed, c the exact scalar value, exactly those units consumed; every ill-formed class => Err, never a fabricated '
                     'character; Utf8Encoder::read step contract: bytes out ++ remainder == remainder ++ utf8(chars), BOM skipped exactly once; yaml::transcode takes the '
-                    'serde_yaml fast path only for UTF-8-encoded slices (repaired defect F2). Verus (U-ENC-V): Utf8Encoder::read / next_char / ArrayBuffer on the verbatim code for EVERY buffer size and character sequence against an '
+                    'serde_yaml fast path only for UTF-8-encoded slices (repaired defect F2; Kani harness on the real function, and Verus U-CHK-V on the verbatim yaml::transcode: serde_yaml::Deserializer::from_str is reachable only behind from_utf8 Ok AND Encoding::detect == Utf8, for every slice). Verus (U-ENC-V): Utf8Encoder::read / next_char / ArrayBuffer on the verbatim code for EVERY buffer size and character sequence against an '
                     'independent bit-level definition of UTF-8, and the stream theorem: any schedule of read() calls hands out exactly utf8(text without one leading BOM).',
         assumptions=['libyaml / serde_yaml treat the re-encoded bytes like native UTF-8 input (they receive identical bytes)', 'decoder byte positions < 2^64-16',
                      'char::encode_utf8 == utf8_bytes (assumed spec; RFC 3629 table) and vstd\'s prophetic Iterator model in U-ENC-V'],
